@@ -12,6 +12,7 @@ import Stef.Driver.Handshake
 import Stef.Driver.Cmp
 import Stef.Driver.Receiver
 import Stef.Driver.Pipeline
+import Stef.Driver.Alloc
 
 open Stef.Driver
 
@@ -25,7 +26,9 @@ def mkHandlers : IO (List (List String × Handler)) := do
   let cmp ← mkHandler ({} : Cmp.St) Cmp.step
   let recv ← mkHandler ({} : Receiver.St) Receiver.step
   let pipe ← mkHandler ({} : Pipeline.St) Pipeline.step
+  let alloc ← mkHandler ({} : Stef.Alloc.Checker) AllocD.step
   pure [
+    (["al"], alloc),
     (["rv", "ls"], recv),
     (["pl"], pipe),
     (["prim", "cmp", "eq", "clone", "copy"], cmp),
